@@ -27,7 +27,7 @@ def run(res):
 
 def _run(res, work):
     pending = []   # (kind, broken, detail): reported after the search
-    ok, tlog = common.regen_tables()
+    ok, tlog = common.regen_tables("C05")
     if not ok:
         pending.append(("translator", "translator/extract/macrokinds.py: default_macro_constant_type / enum repr ladder no longer has the extracted shape", tlog))
     lean = common.lean_obligations("C05", res.tier)
